@@ -1031,8 +1031,13 @@ func main() {
 	resF := fs.String("res", "result.json", "")
 	par := fs.Int("par", 8, "")
 	nrand := fs.Int("random", 0, "")
+	edges, walks, lanes, maxc := fs.String("edges", "", ""), fs.String("walks", "", ""), fs.Int("lanes", 25, ""), fs.Int("max", 0, "")
 	fs.Parse(os.Args[2:])
 	switch os.Args[1] {
+	case "hchild": // handles.go: histories over handle classes (GlobalHandles.tla)
+		runHChild(*in, *out)
+	case "hbatch":
+		runHBatch(*edges, *walks, *resF, *par, *lanes, *maxc)
 	case "child":
 		b, err := os.ReadFile(*in)
 		vh.Must(err)
